@@ -788,15 +788,15 @@ Definition parse_table_expression (psu : PSU) (s : st) : R table_elem :=
      bind
        (if cur_is s1 T_AS then
           let s2 := next s1 in
-          if cur_is s2 T_IDENT || cur_kw s2 then Ok (cur_val s2, next s2, false) else Ok ([], s2, false)
+          if cur_is s2 T_IDENT || cur_kw s2 then Ok (cur_val s2, false, next s2) else Ok ([], false, s2)
         else
           bind (is_keyword_for_clause s1) (fun kfc =>
           if (cur_is s1 T_IDENT || cur_kw s1) && negb kfc && negb (cur_is s1 T_FINAL) &&
              negb (cur_is s1 T_SAMPLE) then
-            if cur_is s1 T_PARALLEL && peek_is s1 T_WITH then Ok ([], s1, true)   (* return expr *)
-            else Ok (cur_val s1, next s1, false)
-          else Ok ([], s1, false)))
-       (fun '(alias, s2, early) =>
+            if cur_is s1 T_PARALLEL && peek_is s1 T_WITH then Ok ([], true, s1)   (* return expr *)
+            else Ok (cur_val s1, false, next s1)
+          else Ok ([], false, s1)))
+       (fun '(alias, early, s2) =>
         if early then ret (TableElem src alias) s2
         else if cur_is s2 T_FINAL then OutOfFragment OofFinal
         else if cur_is s2 T_SAMPLE then OutOfFragment OofSample
